@@ -341,9 +341,10 @@ example : (lookupFn Gen.WireFunctions.table [108, 101, 110]).map (fun ds =>
     [exactPassFrom [.list .int] 0 ds none, exactPassFrom [.struct [] []] 0 ds none, exactPassFrom [.tuple []] 0 ds none,
      transportPick ds [.list .int] 1, transportPick ds [.struct [] []] 2, transportPick ds [.tuple []] 3])
     = some [.found 1, .found 2, .found 3, .found 1, .found 2, .found 3] := by decide
-/-- a call the typechecker lets through in its second pass (`len()`, no arguments) is rejected, not misrouted -/
+/-- `len()` without arguments: no longer typechecks (the second pass skips TypeFn overloads); were such a call to
+    arrive anyway it is rejected by the transport, not misrouted -/
 example : (lookupFn Gen.WireFunctions.table [108, 101, 110]).map (fun ds => (typecheckPick ds [], transportPick ds [] 1))
-    = some (.found 1, .notFound) := by decide
+    = some (.notFound, .notFound) := by decide
 
 /-- `c IN (1, 2) AND len(t) = 2` with `t` a tuple: three calls, TypeFn overloads 1 (`in`, tuple) and 3 (`len`, tuple) among
     them; after the trip every call has its own descriptor again -/
